@@ -2,6 +2,7 @@ package main
 
 import (
 	"fmt"
+	"sort"
 	"strings"
 
 	"golang.org/x/tools/go/ssa"
@@ -92,6 +93,80 @@ func (p *Program) inspectedRead(fn *ssa.Function, x ssa.Value, fs []Fact) *ssa.C
 	return nil
 }
 
+// c05DeleteContext checks the context conditions of a delete of x at `site` (a Delete call, or a
+// call of a helper that deletes its parameter): IsController(owner, x) dominates, x was filled by an
+// error-free Reader.Get, the controller test was evaluated after that read, and nothing modifies x
+// between the read and the site. When x is a parameter of an unexported helper the conditions are
+// established at every static call site instead (bounded depth).
+func (p *Program) c05DeleteContext(fn *ssa.Function, site ssa.Instruction, x ssa.Value, depth int) (problems, notes []string) {
+	if prm, isParam := stripConv(x).(*ssa.Parameter); isParam && depth > 0 {
+		callers := p.callersOf(fn)
+		if len(callers) > 0 && !p.addressTaken(fn) && fn.Object() != nil && !fn.Object().Exported() {
+			idx := -1
+			for i, pp := range fn.Params {
+				if pp == prm {
+					idx = i
+				}
+			}
+			// nothing in the helper may modify the parameter before the delete
+			for _, b := range fn.Blocks {
+				for _, in := range b.Instrs {
+					if in != site && p.mutatesObject(in, x) && canReach(site.Block())[in.Block()] {
+						problems = append(problems, "helper "+shortFuncID(fn)+" modifies the object before deleting it at "+p.IPos(in))
+					}
+				}
+			}
+			for _, c := range callers {
+				if idx < 0 || idx >= len(c.Common.Args) {
+					problems = append(problems, "cannot map helper parameter at "+p.IPos(c.Instr))
+					continue
+				}
+				pr, nt := p.c05DeleteContext(c.Fn, c.Instr, c.Common.Args[idx], depth-1)
+				for _, q := range pr {
+					problems = append(problems, "via "+shortFuncID(fn)+" called at "+p.IPos(c.Instr)+": "+q)
+				}
+				notes = append(notes, nt...)
+			}
+			return problems, notes
+		}
+	}
+	fs := p.FactsAt(site.Block())
+	var ctrl *ssa.Call
+	for _, f := range fs {
+		if !f.Pol {
+			continue
+		}
+		call, _ := asCall(f.Cond)
+		if call == nil {
+			continue
+		}
+		o, obj, ok := ownerStrategyCall(call.Common(), "IsController")
+		if ok && isOwnerClientObject(o) && p.sameValue(obj, x) {
+			ctrl = call
+		}
+	}
+	if ctrl == nil {
+		problems = append(problems, "delete is not dominated by IsController(owner.ClientObject(), <deleted object>) == true")
+	} else {
+		notes = append(notes, "IsController(owner, x) dominates "+p.IPos(site))
+	}
+	get := p.inspectedRead(fn, x, fs)
+	if get == nil {
+		problems = append(problems, "deleted object is not the out-parameter of a Reader.Get whose error is known nil here")
+		return problems, notes
+	}
+	notes = append(notes, "inspected by "+p.describe(get)+" at "+p.IPos(get))
+	for _, in := range between(get, site) {
+		if p.mutatesObject(in, x) {
+			problems = append(problems, "object is modified (or re-read) between the inspected read and the delete at "+p.IPos(in)+" — the ownership test no longer describes what is deleted")
+		}
+	}
+	if ctrl != nil && !p.mustPrecede(ctrl, func(in ssa.Instruction) bool { return in == ssa.Instruction(get) }) {
+		problems = append(problems, "IsController was not evaluated after the inspected read")
+	}
+	return problems, notes
+}
+
 func c05r1(c *Ctx) {
 	p := c.P
 	for _, ws := range allWriterSites(p.productFuncs()) {
@@ -100,27 +175,11 @@ func c05r1(c *Ctx) {
 		}
 		fn := ws.Call.Fn
 		site := ws.Call.Instr
-		fs := p.FactsAt(site.Block())
 		x := ws.Obj
 		o := c.Ob(fn, "Delete", site, c.rule.Statement)
 		o.Require("T:IsController(owner.ClientObject(), x)", "err==nil of Reader.Get(_, _, x)", "Preconditions.UID==ptr.To(x.GetUID())", "Preconditions.ResourceVersion==ptr.To(x.GetResourceVersion())", "no mutation of x between Get and Delete")
-		var problems []string
-		if !p.factOwnerTest(fs, "IsController", true, x) {
-			problems = append(problems, "delete is not dominated by IsController(owner.ClientObject(), <deleted object>) == true")
-		} else {
-			o.Note("IsController(owner, x) dominates")
-		}
-		get := p.inspectedRead(fn, x, fs)
-		if get == nil {
-			problems = append(problems, "deleted object is not the out-parameter of a Reader.Get whose error is known nil here")
-		} else {
-			o.Note("inspected by " + p.describe(get) + " at " + p.IPos(get))
-			for _, in := range between(get, site) {
-				if p.mutatesObject(in, x) {
-					problems = append(problems, "object is modified between the inspected read and the delete at "+p.IPos(in))
-				}
-			}
-		}
+		problems, notes := p.c05DeleteContext(fn, site, x, 2)
+		o.Note(notes...)
 		// preconditions
 		if !ws.OptsOK {
 			problems = append(problems, "delete options are not a literal variadic list")
@@ -137,7 +196,8 @@ func c05r1(c *Ctx) {
 		if pre == nil {
 			problems = append(problems, "no client.Preconditions literal among the delete options")
 		} else {
-			for field, getter := range map[string]string{"UID": "GetUID", "ResourceVersion": "GetResourceVersion"} {
+			for _, fg := range [][2]string{{"UID", "GetUID"}, {"ResourceVersion", "GetResourceVersion"}} {
+				field, getter := fg[0], fg[1]
 				v, ok := pre[field]
 				if !ok {
 					problems = append(problems, "Preconditions."+field+" is not set")
@@ -177,6 +237,35 @@ func (p *Program) isPtrToGetterOf(v ssa.Value, getter string, x ssa.Value) bool 
 	return p.sameValue(callRecv(inner.Common()), x)
 }
 
+// c05Contexts resolves a delete of a helper parameter to the call sites that supply the object.
+type c05Ctx struct {
+	fn   *ssa.Function
+	site ssa.Instruction
+	x    ssa.Value
+}
+
+func (p *Program) c05Contexts(fn *ssa.Function, site ssa.Instruction, x ssa.Value, depth int) []c05Ctx {
+	if prm, isParam := stripConv(x).(*ssa.Parameter); isParam && depth > 0 {
+		callers := p.callersOf(fn)
+		if len(callers) > 0 && !p.addressTaken(fn) && fn.Object() != nil && !fn.Object().Exported() {
+			idx := -1
+			for i, pp := range fn.Params {
+				if pp == prm {
+					idx = i
+				}
+			}
+			var out []c05Ctx
+			for _, c := range callers {
+				if idx >= 0 && idx < len(c.Common.Args) {
+					out = append(out, p.c05Contexts(c.Fn, c.Instr, c.Common.Args[idx], depth-1)...)
+				}
+			}
+			return out
+		}
+	}
+	return []c05Ctx{{fn, site, x}}
+}
+
 func c05r2(c *Ctx) {
 	p := c.P
 	// (a) per dyn Delete site: receiver of the inspected Get is a field different from the Watch receiver
@@ -184,94 +273,96 @@ func c05r2(c *Ctx) {
 		if ws.Verb != "Delete" || ws.Class == "typed" {
 			continue
 		}
-		fn := ws.Call.Fn
-		fs := p.FactsAt(ws.Call.Instr.Block())
-		get := p.inspectedRead(fn, ws.Obj, fs)
-		o := c.Ob(fn, "inspected-read-receiver", ws.Call.Instr, "the read that is inspected before a delete is not served by the informer cache")
-		if get == nil {
-			o.Fail("no inspected read found for the deleted object")
-			continue
-		}
-		getRecv := p.key(callRecv(get.Common()))
-		var watchRecv []string
-		for _, cc := range callsIn(fn) {
-			if calleeName(cc.Common) == "Watch" && cc.Common.IsInvoke() {
-				watchRecv = append(watchRecv, p.key(cc.Common.Value))
+		for _, dc := range p.c05Contexts(ws.Call.Fn, ws.Call.Instr, ws.Obj, 2) {
+			fn := dc.fn
+			fs := p.FactsAt(dc.site.Block())
+			get := p.inspectedRead(fn, dc.x, fs)
+			o := c.Ob(fn, "inspected-read-receiver", dc.site, "the read that is inspected before a delete is not served by the informer cache")
+			if get == nil {
+				o.Fail("no inspected read found for the deleted object")
+				continue
 			}
-		}
-		bad := false
-		for _, w := range watchRecv {
-			if w == getRecv {
-				bad = true
+			getRecv := p.key(callRecv(get.Common()))
+			var watchRecv []string
+			for _, cc := range callsIn(fn) {
+				if calleeName(cc.Common) == "Watch" && cc.Common.IsInvoke() {
+					watchRecv = append(watchRecv, p.key(cc.Common.Value))
+				}
 			}
-		}
-		if bad {
-			o.Fail("the inspected Get is invoked on %s, the same value the dynamic cache Watch is invoked on (informer cache, may be stale)", getRecv)
-			continue
-		}
-		if !strings.Contains(getRecv, ".") {
-			o.Unknown("receiver of the inspected read is not a reconciler field: %s", getRecv)
-			continue
-		}
-		o.OK("Get on " + getRecv + "; Watch on " + strings.Join(watchRecv, ","))
-		// (b) constructor wiring
-		field := getRecv[strings.LastIndex(getRecv, ".")+1:]
-		ctor := p.Func(pkgControllers, "NewPhaseReconciler")
-		if ctor == nil {
-			c.AnchorLost(pkgControllers + ".NewPhaseReconciler")
-			continue
-		}
-		c.Visit(ctor)
-		// which parameter feeds `field`, which feeds the Watch field and the writer?
-		paramOf := map[string]int{}
-		for _, b := range ctor.Blocks {
-			for _, in := range b.Instrs {
-				st, ok := in.(*ssa.Store)
-				if !ok {
-					continue
+			bad := false
+			for _, w := range watchRecv {
+				if w == getRecv {
+					bad = true
 				}
-				fa, ok := st.Addr.(*ssa.FieldAddr)
-				if !ok {
-					continue
-				}
-				if prm, ok := stripConv(st.Val).(*ssa.Parameter); ok {
-					for i, pp := range ctor.Params {
-						if pp == prm {
-							paramOf[fieldName(fa.X.Type(), fa.Field)] = i
+			}
+			if bad {
+				o.Fail("the inspected Get is invoked on %s, the same value the dynamic cache Watch is invoked on (informer cache, may be stale)", getRecv)
+				continue
+			}
+			if !strings.Contains(getRecv, ".") {
+				o.Unknown("receiver of the inspected read is not a reconciler field: %s", getRecv)
+				continue
+			}
+			o.OK("Get on " + getRecv + "; Watch on " + strings.Join(watchRecv, ","))
+			// (b) constructor wiring
+			field := getRecv[strings.LastIndex(getRecv, ".")+1:]
+			ctor := p.Func(pkgControllers, "NewPhaseReconciler")
+			if ctor == nil {
+				c.AnchorLost(pkgControllers + ".NewPhaseReconciler")
+				continue
+			}
+			c.Visit(ctor)
+			// which parameter feeds `field`, which feeds the Watch field and the writer?
+			paramOf := map[string]int{}
+			for _, b := range ctor.Blocks {
+				for _, in := range b.Instrs {
+					st, ok := in.(*ssa.Store)
+					if !ok {
+						continue
+					}
+					fa, ok := st.Addr.(*ssa.FieldAddr)
+					if !ok {
+						continue
+					}
+					if prm, ok := stripConv(st.Val).(*ssa.Parameter); ok {
+						for i, pp := range ctor.Params {
+							if pp == prm {
+								paramOf[fieldName(fa.X.Type(), fa.Field)] = i
+							}
 						}
 					}
 				}
 			}
-		}
-		ri, ok := paramOf[field]
-		if !ok {
-			c.Ob(ctor, "field-"+field, nil, "constructor assigns the inspected-read field from a parameter").Fail("field %s is not assigned from a constructor parameter", field)
-			continue
-		}
-		callers := p.callersOf(ctor)
-		for _, call := range callers {
-			if isNonProductPkg(funcPkgPath(call.Fn)) {
+			ri, ok := paramOf[field]
+			if !ok {
+				c.Ob(ctor, "field-"+field, nil, "constructor assigns the inspected-read field from a parameter").Fail("field %s is not assigned from a constructor parameter", field)
 				continue
 			}
-			oo := c.Ob(call.Fn, "NewPhaseReconciler-wiring", call.Instr, "uncached reader argument differs from the cache and from the cache-backed client")
-			args := call.Common.Args
-			rk := p.key(args[ri])
-			clash := ""
-			for name, i := range paramOf {
-				if i == ri || name == field {
+			callers := p.callersOf(ctor)
+			for _, call := range callers {
+				if isNonProductPkg(funcPkgPath(call.Fn)) {
 					continue
 				}
-				if name == "scheme" || name == "ownerStrategy" || name == "preflightChecker" {
-					continue
+				oo := c.Ob(call.Fn, "NewPhaseReconciler-wiring", call.Instr, "uncached reader argument differs from the cache and from the cache-backed client")
+				args := call.Common.Args
+				rk := p.key(args[ri])
+				clash := ""
+				for name, i := range paramOf {
+					if i == ri || name == field {
+						continue
+					}
+					if name == "scheme" || name == "ownerStrategy" || name == "preflightChecker" {
+						continue
+					}
+					if p.key(args[i]) == rk {
+						clash = name
+					}
 				}
-				if p.key(args[i]) == rk {
-					clash = name
+				if clash != "" {
+					oo.Fail("argument for %s (%s) is the same value as the argument for %s", field, rk, clash)
+				} else {
+					oo.OK("reader arg " + rk)
 				}
-			}
-			if clash != "" {
-				oo.Fail("argument for %s (%s) is the same value as the argument for %s", field, rk, clash)
-			} else {
-				oo.OK("reader arg " + rk)
 			}
 		}
 	}
@@ -283,10 +374,17 @@ func c05r3(c *Ctx) {
 	seen := map[*ssa.Function]bool{}
 	for _, ws := range allWriterSites(p.productFuncs()) {
 		if ws.Verb == "Delete" && ws.Class != "typed" {
-			seen[ws.Call.Fn] = true
+			for _, dc := range p.c05Contexts(ws.Call.Fn, ws.Call.Instr, ws.Obj, 2) {
+				seen[dc.fn] = true
+			}
 		}
 	}
+	var fnList []*ssa.Function
 	for fn := range seen {
+		fnList = append(fnList, fn)
+	}
+	sort.Slice(fnList, func(i, j int) bool { return funcID(fnList[i]) < funcID(fnList[j]) })
+	for _, fn := range fnList {
 		for _, ws := range allWriterSites([]*ssa.Function{fn}) {
 			if ws.Verb == "Delete" {
 				continue
